@@ -79,6 +79,14 @@ func genRange(r *Rng, m *ISet, light, huge bool) (uint64, uint64) {
 		// whole chunk(s)
 		s = s &^ 0xFFFF
 	}
+	if r.Chance(0.04) {
+		// a (cheap) range that ends exactly at 2^32, i.e. inside chunk key 0xFFFF
+		e = 1 << 32
+		s = e - 1 - r.Range(0, 3*65536)
+		if r.Chance(0.3) {
+			s = e - 65536*(1+r.Range(0, 2))
+		}
+	}
 	return s, e
 }
 
